@@ -606,19 +606,25 @@ Definition set_q (k : Z) (qs : quirks) : quirks :=
      q_parent_lookup := if k =? 5 then true else q_parent_lookup qs;
      q_np_string := if k =? 6 then true else q_np_string qs |}.
 
-(* verdict: 0 = specification; k in 2..6 = specification with the single quirk k;
-   7 = all of 2..5 together (the code as found, np.string_ repaired); 8 = the code as found; 1 = unexplained *)
+Definition mk_q (b2 b3 b4 b5 : bool) : quirks :=
+  {| q_regex := b2; q_memo_all := b3; q_memo_shallow := b4; q_parent_lookup := b5; q_np_string := false |}.
+
+(* candidate explanations, smallest first: the specification, one quirk, then sets of quirks 2..5
+   coded 100 + 1*[regex] + 2*[memo_all] + 4*[memo_shallow] + 8*[parent_lookup] *)
+Definition candidates : list (Z * quirks) :=
+  [ (0, all_off); (2, set_q 2 all_off); (3, set_q 3 all_off); (4, set_q 4 all_off); (5, set_q 5 all_off); (6, set_q 6 all_off);
+    (103, mk_q true true false false); (105, mk_q true false true false); (109, mk_q true false false true);
+    (106, mk_q false true true false); (110, mk_q false true false true); (112, mk_q false false true true);
+    (107, mk_q true true true false); (111, mk_q true true false true); (113, mk_q true false true true);
+    (114, mk_q false true true true); (115, mk_q true true true true) ].
+
+(* verdict: 0 = specification; 2..6 = specification with that single quirk; 100+mask = that set of quirks; 1 = unexplained *)
 Definition check_run (c : dataset * Z * owrite * oread) : Z :=
   match c with (d, lvl, ow, ord) =>
-    if run_matches all_off d lvl ow ord then 0
-    else if run_matches (set_q 2 all_off) d lvl ow ord then 2
-    else if run_matches (set_q 3 all_off) d lvl ow ord then 3
-    else if run_matches (set_q 4 all_off) d lvl ow ord then 4
-    else if run_matches (set_q 5 all_off) d lvl ow ord then 5
-    else if run_matches (set_q 6 all_off) d lvl ow ord then 6
-    else if run_matches (set_q 5 (set_q 4 (set_q 3 (set_q 2 all_off)))) d lvl ow ord then 7
-    else if run_matches current d lvl ow ord then 8
-    else 1
+    match find (fun kq => run_matches (snd kq) d lvl ow ord) candidates with
+    | Some (k, _) => k
+    | None => 1
+    end
   end.
 
 (* the property itself on observables: what was read is the restriction of what was written *)
